@@ -301,6 +301,18 @@ fn avar_maps(max_interior: usize) -> Vec<Knots> {
             }
         }
     }
+    // maps whose to-coordinates leave [-1, 1] (2.14 can hold [-2, 2)): at an interior knot, at the final knot, on the negative
+    // side - the result must still be clamped to [-1, 1] whether the value hits a knot exactly or falls inside a segment
+    for k in [
+        vec![(-16384i16, -16384i16), (0, 0), (8192, 20480), (16384, 24576)],
+        vec![(-16384, -16384), (0, 0), (8192, 16384), (16384, 20480)],
+        vec![(-16384, -16384), (0, 0), (8192, 4096), (16384, 24576)],
+        vec![(-16384, -24576), (-8192, -20480), (0, 0), (16384, 16384)],
+        vec![(-16384, -20480), (0, 0), (16384, 20480)],
+    ] {
+        debug_assert!(k.windows(2).all(|w| w[0].0 < w[1].0 && w[0].1 <= w[1].1));
+        out.push(k);
+    }
     out
 }
 
